@@ -145,9 +145,22 @@ impl ZerokitMerkleTree for PmTree {
             Err(_) => pmtree::MerkleTree::new(depth, config.0)?,
         };
 
+        // A tree loaded from an existing location already holds leaves: rebuild the cache of
+        // set positions from the stored leaves (for a new tree this loop does nothing)
+        let mut cached_leaves_indices = vec![0; 1 << tree.depth()];
+        for (i, flag) in cached_leaves_indices
+            .iter_mut()
+            .enumerate()
+            .take(tree.leaves_set())
+        {
+            if tree.get(i)? != Self::Hasher::default_leaf() {
+                *flag = 1;
+            }
+        }
+
         Ok(PmTree {
             tree,
-            cached_leaves_indices: vec![0; 1 << depth],
+            cached_leaves_indices,
             metadata: Vec::new(),
         })
     }
